@@ -182,7 +182,7 @@ def replay_paths(prop, path):
         case = v.get("case", v)
         inp = os.path.join(wd, "r.in")
         trace = os.path.join(wd, "r.trace")
-        if case.get("k") == "grp":
+        if case.get("k") in ("grp", "struct", "tab", "crash"):
             with open(inp, "w") as f:
                 f.write(json.dumps(case) + "\n")
             C.run_harness(["xp-record", "--regroup", inp, "--out", trace])
